@@ -258,6 +258,16 @@ pub fn generate(seed: u64, n: usize, _thorough: bool, _corpus: Option<&str>) -> 
         let (lm, fam) = family(&mut r, i);
         cases_for(&lm, fam, &variants, &mut cases);
     }
+    // two-phase start with zero-level artificials in rows without a positive structural entry: an own stream, so that
+    // the other families do not shift
+    // textbook cycling instances: the tableau simplex (default iteration limit) must still reach a verdict
+    let mut r3 = Rng::new(seed ^ 0xc7c1e);
+    for (name, lm) in gen_lp::cycling_classics(&mut r3) { cases_for(&lm, name, &variants, &mut cases); }
+    let mut r2 = Rng::new(seed ^ 0x2fa5e);
+    for k in 0..48 {
+        let lm = gen_lp::two_phase_zero_rows(&mut r2, k);
+        cases_for(&lm, "two-phase-zero-level-artificial", &variants, &mut cases);
+    }
     child::shutdown();
     cases
 }
